@@ -59,12 +59,28 @@ func envOr(k, d string) string {
 }
 
 func supervise(id, tier string, seed int64) int {
-	outDir := filepath.Join(rep.Root, "out", id)
+	// one directory per run: replay files, the child's stderr, race logs and dumps of
+	// concurrent runs of the same check must not mix. Directories left by earlier runs
+	// of the same check, tier and seed are superseded and removed once their process is gone.
+	base := filepath.Join(rep.Root, "out", id)
+	prefix := fmt.Sprintf("%s-%d-p", tier, seed)
+	if ents, err := os.ReadDir(base); err == nil {
+		for _, e := range ents {
+			if !e.IsDir() || !strings.HasPrefix(e.Name(), prefix) {
+				continue
+			}
+			if _, err := os.Stat("/proc/" + strings.TrimPrefix(e.Name(), prefix)); err != nil {
+				os.RemoveAll(filepath.Join(base, e.Name()))
+			}
+		}
+	}
+	outDir := filepath.Join(base, fmt.Sprintf("%s%d", prefix, os.Getpid()))
 	os.MkdirAll(outDir, 0755)
+	os.Setenv("VERIF_RUN_DIR", outDir)
 	work := filepath.Join(rep.Root, ".work", fmt.Sprintf("%s-%d", id, os.Getpid()))
 	os.MkdirAll(work, 0755)
 	defer os.RemoveAll(work)
-	errPath := filepath.Join(outDir, fmt.Sprintf("child-%s-%d.stderr", tier, seed))
+	errPath := filepath.Join(outDir, "child.stderr")
 	ef, err := os.Create(errPath)
 	if err != nil {
 		fmt.Fprintln(os.Stderr, err)
@@ -72,12 +88,7 @@ func supervise(id, tier string, seed int64) int {
 	}
 	start := time.Now()
 	cmd := exec.Command(os.Args[0], os.Args[1:]...)
-	raceLog := filepath.Join(outDir, fmt.Sprintf("race-%s-%d", tier, seed))
-	if old, _ := filepath.Glob(raceLog + "*"); len(old) > 0 {
-		for _, f := range old {
-			os.Remove(f)
-		}
-	}
+	raceLog := filepath.Join(outDir, "race")
 	cmd.Env = append(os.Environ(), "VERIF_CHILD=1", "VERIF_WORK="+work, "GOTRACEBACK=all",
 		"GORACE=halt_on_error=0 exitcode=0 history_size=5 log_path="+raceLog, "VERIF_RACE_LOG="+raceLog)
 	cmd.Stdout = os.Stdout
